@@ -30,7 +30,8 @@ PRODUCERS = {
     "Int::new": "u64 widened to i128",
     "Int::new_negative": "negated u64 widened to i128",
     "Int::new_i32": "i32 widened to i128",
-    "Int::from_str": "range-checked against u64::MAX",
+    "Int::from_str": "range-checked against -2^64 and 2^64 - 1 (re-checked by INT-span)",
+    "BigInt::as_int": "range-checked against -2^64 and 2^64 - 1 (re-checked by INT-span)",
     "<Int as serialization::traits::Deserialize>::deserialize::{closure#0}": "CBOR uint (u64) or nint via read_nint (>= -2^64)",
     "<CostModel as std::convert::From<Vec<i128>>>::from::{closure#0}": "crate-internal conversion used with the built-in cost model constants",
     "MintBuilder::update_mint_value": "copies an existing Int or stores checked_mint_sum(..)?, which range-checks",
@@ -175,6 +176,8 @@ def check(rep, F, tier, replay=None):
                 break
     from ruleutil import value_sub_total_rule
     value_sub_total_rule(rep, F)
+    from ruleutil import int_range_rule
+    int_range_rule(rep, F)
     return rep.finish(
         EXPLANATION,
         ["BigNum's checked_* delegate to u64::checked_* (std)", "num-bigint arithmetic is exact", "wasm32 makes usize 32-bit: casts involving usize are marked target dependent in the table"],
